@@ -35,6 +35,13 @@ CHECKS.append(check(
     "deterministic simulation: op-counting simulated disk (work clock) + stored-byte corruption faults before open",
     "DESIGN.md section 3 B, section 5 C15"))
 
+CHECKS.append(check(
+    "C14", "gosim", "exploration",
+    "The real lib/rac Reader runs with conc_reader.go's go statements, channel operations and selects rewritten (type-driven, at check time, from the working tree) onto a seeded scheduler in which exactly one goroutine runs at a time and every scheduling decision is a tape draw; seeded call histories (Read/Seek/SeekRange/Close/CloseWithoutWaiting, biased to chunk boundaries and to seeks with work in flight) over several file shapes and Concurrency 0..8 are compared call by call with an in-memory reader; further oracles: deadlock, step-budget livelock, goroutine leak after Close, panic in any goroutine, and (a quarter of the workers, -race build) data races judged against channel-induced happens-before only. Three uniform/priority/sticky scheduling policies, virtual disk latency and a stalled worker as faults.",
+    "Sampling of schedules and histories, not enumeration. Trusts simrt's channel semantics, which are themselves checked (engines/gosim/simrt/simrt_test.go: exhaustive enumeration of simrt's schedules on 400 random channel programs equals an independent reference semantics, and 2400 executions on the real Go runtime stay inside that reference). If lib/rac starts using sync, time, context or reflect the rewriter refuses and the check exits 2 (no verdict) rather than guess.",
+    "deterministic simulation: seeded goroutine scheduler over rewritten channel operations + reference model (in-memory reader) + in-simulation race detection",
+    "DESIGN.md section 3 A, section 5 C14, Appendices A and G"))
+
 NA_REASONS = {
  "C06": "pure function of two big.Int interval pairs: no stream, state, schedule, fault or history exists for a simulator to control (DESIGN.md section 7)",
  "C10": "static property of an object file (sections, symbols) plus constness of pure methods: decided by inspecting a binary, not by simulating executions (DESIGN.md section 7)",
@@ -69,6 +76,7 @@ def main():
             "add_only": True,
         },
         "engines": [
+            {"name": "gosim", "path": "/verif/engines/gosim", "serves_properties": ["C14"], "kind_free_text": "seeded goroutine scheduler (simrt) under the real lib/rac concurrent reader, whose channel constructs are rewritten at check time by /verif/rewrite and injected with go build -overlay"},
             {"name": "disksim", "path": "/verif/engines/disksim", "serves_properties": ["C13", "C15"], "kind_free_text": "simulated storage (fault-injecting io.Writer/TempFile, op-counting ReadSeeker) under the real lib/rac writer and readers"},
         ],
         "checks": CHECKS,
